@@ -42,13 +42,17 @@ InvalidChecksum: ...
 Traceback (most recent call last):
     ...
 InvalidComponent: ...
+>>> validate('756921707-985')  # dashes are not used as separators
+Traceback (most recent call last):
+    ...
+InvalidFormat: ...
 >>> format('7569217076985')
 '756.9217.0769.85'
 """
 
 from stdnum import ean
 from stdnum.exceptions import *
-from stdnum.util import clean
+from stdnum.util import clean, isdigits
 
 
 def compact(number):
@@ -66,6 +70,8 @@ def format(number):
 def validate(number):
     """Check if the number is a valid Swiss Sozialversicherungsnummer."""
     number = compact(number)
+    if not isdigits(number):
+        raise InvalidFormat()
     if len(number) != 13:
         raise InvalidLength()
     if not number.startswith('756'):
